@@ -16,7 +16,7 @@ started from the journalled incumbent.  The driver
   `is_satisfiable()` answers.
 
 Verdicts: `ok <case> <what> <id>`, `skip <case> <what> <id> <why>`,
-`MISMATCH <case> <obligation> <id> <detail>` with obligation ∈ {lp-oracle, sub-answer, sat-answer, node, branch-var, sat-node, top}. -/
+`MISMATCH <case> <obligation> <id> <detail>` with obligation ∈ {lp-oracle, sub-answer, sat-answer, top-ref, node, branch-var, sat-node, top}. -/
 namespace PPLV.Solver.BBDriver
 open PPLV.Lin PPLV.Solver PPLV.Solver.BB
 
@@ -369,6 +369,18 @@ def finishCase (cs : Case) : M Unit := do
             | _, _ => false
           if same then ok c "top" 0
           else bad c "top" 0 s!"library solve() = {" ".intercalate rest} ; model {match o with | .unfeasible => "unfeasible" | .unbounded p => "unbounded " ++ ptStr n p | .optimized v p => "optimized " ++ ratStr v ++ " at " ++ ptStr n p}"
+        -- independent replay: the model with the PROVED LP reference as oracle (its own vertices, hence possibly
+        -- another tree); by `C06.solve_mip_sound` + `C06.ref_oracle_ok` its answer is the true one
+        match solveTop refOracle 40 root with
+        | none => skip c "top-ref" 0 "fuel-or-no-point"
+        | some o =>
+          let same := match o, rest with
+            | .unfeasible, ["unfeasible"] => true
+            | .unbounded _, "unbounded" :: _ => true
+            | .optimized v _, "optimized" :: a :: b :: _ => v == (tokInt a : Rat) / (tokInt b : Rat)
+            | _, _ => false
+          if same then ok c "top-ref" 0
+          else bad c "top-ref" 0 s!"library solve() = {" ".intercalate (rest.take 3)} ; model with the reference LP oracle: {match o with | .unfeasible => "unfeasible" | .unbounded _ => "unbounded" | .optimized v _ => "optimized " ++ ratStr v}"
       | "sat" :: rest =>
         if cs.sat.size == 0 then skip c "top" 1 "no-tree" else
         match isMipSatisfiable soracle fuel root with
